@@ -19,6 +19,15 @@ func init() {
 
 var vpZoneE8 = time.FixedZone("E8", 8*3600)
 
+// vpZoneLMT: a zone whose offset is not a whole number of minutes before 1901
+// (Asia/Shanghai local mean time, +08:05:43). Engine: an opaque zone.
+var vpZoneLMT = func() *time.Location {
+	if l, err := time.LoadLocation("Asia/Shanghai"); err == nil {
+		return l
+	}
+	return time.FixedZone("Asia/Shanghai", 8*3600+343)
+}()
+
 // vpZoneDST: a zone with daylight saving. Natively the real America/New_York;
 // in the engine (no zone database, time is environment) an opaque fourth zone.
 var vpZoneDST = func() *time.Location {
@@ -38,6 +47,8 @@ func vpLocID(l *time.Location) int64 {
 		return 2
 	case vpZoneDST:
 		return 5
+	case vpZoneLMT:
+		return 6
 	}
 	if l.String() == "Asia/Shanghai" {
 		return 3
@@ -53,6 +64,8 @@ func vpLocOf(id int64) *time.Location {
 		return time.Local
 	case 3:
 		return vpZoneDST
+	case 4:
+		return vpZoneLMT
 	}
 	return vpZoneE8
 }
@@ -185,7 +198,7 @@ func VP_C19_date() {
 	// addDate: shift triples from an arbitrary instant in either zone
 	sec := vpInt64("sec")
 	vpAssume(sec > -60000000000 && sec < 250000000000)
-	base := time.Unix(sec, 0).In(vpLocOf(int64(vpChoice("loc", 4))))
+	base := time.Unix(sec, 0).In(vpLocOf(int64(vpChoice("loc", 5))))
 	dy, dm, dd := vpRangeInt("dy", -100, 100), vpRangeInt("dm", -50, 50), vpRangeInt("dd", -300000, 300000)
 	got2, err2 := addDate(base, dy, dm, dd)
 	want2 := base.AddDate(dy, dm, dd)
@@ -198,9 +211,12 @@ func VP_C19_fields() {
 	env := vpTimeEnv()
 	sec := vpInt64("sec")
 	vpAssume(sec > -60000000000 && sec < 250000000000)
+	if vpBool("before1900") {
+		vpAssume(sec < -2208988800)
+	}
 	ns := vpInt64("ns")
 	vpAssume(ns >= 0 && ns < 1000000000)
-	t := time.Unix(sec, ns).In(vpLocOf(int64(vpChoice("loc", 4))))
+	t := time.Unix(sec, ns).In(vpLocOf(int64(vpChoice("loc", 5))))
 	intFn := func(name string) (int, bool) {
 		f, ok := vpBuiltin(name).(func(time.Time) (int, error))
 		if !ok {
@@ -284,7 +300,7 @@ func VP_C19_zone() {
 	env := vpTimeEnv()
 	sec := vpInt64("sec")
 	vpAssume(sec > -60000000000 && sec < 250000000000)
-	t := time.Unix(sec, 0).In(vpLocOf(int64(vpChoice("loc", 4))))
+	t := time.Unix(sec, 0).In(vpLocOf(int64(vpChoice("loc", 5))))
 	switch vpChoice("fn", 4) {
 	case 0:
 		use, ok := vpBuiltin("useTimezone").(func(time.Time, string) (time.Time, error))
@@ -299,7 +315,8 @@ func VP_C19_zone() {
 			vpAssert("C19/zone/zone-changed", r.Location() != nil && r.Location().String() == "Asia/Shanghai")
 		}
 		_, err2 := use(t, "No/Such_Zone")
-		vpAssert("C19/zone/unknown-zone-is-error", err2 != nil)
+		_, err2b := use(t, "No/Such_Zone")
+		vpAssert("C19/zone/unknown-zone-is-error", err2 != nil && err2b != nil)
 		r3, err3 := use(t, "UTC")
 		vpAssert("C19/zone/utc", err3 == nil && r3.Equal(t) && r3.Location() == time.UTC)
 	case 1:
